@@ -28,11 +28,17 @@ import (
 	"golang.org/x/tools/go/ssa"
 )
 
+type phiHyp struct {
+	val     int64
+	probing bool
+}
+
 type lbCtx struct {
-	p     *Prog
-	hyp   map[string]int64 // field key -> hypothesised lower bound while its stores are being checked
-	depth int
-	subst map[*ssa.Parameter]ssa.Value
+	phiHyp map[*ssa.Phi]phiHyp
+	p      *Prog
+	hyp    map[string]int64 // field key -> hypothesised lower bound while its stores are being checked
+	depth  int
+	subst  map[*ssa.Parameter]ssa.Value
 }
 
 func LowerBound(p *Prog, v ssa.Value) (int64, bool) {
@@ -84,6 +90,58 @@ func (c *lbCtx) lb(v ssa.Value) (int64, bool) {
 		}
 		return 0, false
 	case *ssa.Phi:
+		if h, ok := c.phiHyp[x]; ok {
+			if h.probing {
+				return 0, false // first pass: edges that depend on the phi itself are skipped
+			}
+			return h.val, true
+		}
+		if c.phiHyp == nil {
+			c.phiHyp = map[*ssa.Phi]phiHyp{}
+		}
+		// loop-carried accumulators (`m := 0; for ... { m = max(m, x) }`): induction on the phi.
+		// pass 1: lower bound of the edges that do not depend on the phi; pass 2: verify the others under it
+		c.phiHyp[x] = phiHyp{probing: true}
+		base, haveBase := int64(0), false
+		dependent := false
+		for i, e := range x.Edges {
+			if e == ssa.Value(x) {
+				continue
+			}
+			b, ok := c.lb(e)
+			if r, okr := c.refineByBranch(x, i, e); okr && (!ok || r > b) {
+				b, ok = r, true
+			}
+			if !ok {
+				dependent = true
+				continue
+			}
+			if !haveBase || b < base {
+				base, haveBase = b, true
+			}
+		}
+		delete(c.phiHyp, x)
+		if haveBase && dependent {
+			c.phiHyp[x] = phiHyp{val: base}
+			okAll := true
+			for i, e := range x.Edges {
+				if e == ssa.Value(x) {
+					continue
+				}
+				b, ok := c.lb(e)
+				if r, okr := c.refineByBranch(x, i, e); okr && (!ok || r > b) {
+					b, ok = r, true
+				}
+				if !ok || b < base {
+					okAll = false
+				}
+			}
+			delete(c.phiHyp, x)
+			if okAll {
+				return base, true
+			}
+			return 0, false
+		}
 		have := false
 		var res int64
 		for i, e := range x.Edges {
